@@ -11,6 +11,7 @@ import (
 )
 
 func init() {
+	verifHarnesses["VerifHarness_C20_untaint_odd"] = VerifHarness_C20_untaint_odd
 	verifHarnesses["VerifHarness_C19_bigbatch"] = VerifHarness_C19_bigbatch
 	verifHarnesses["VerifHarness_C20_forever"] = VerifHarness_C20_forever
 	verifHarnesses["VerifHarness_C18_nolock"] = VerifHarness_C18_nolock
@@ -287,6 +288,7 @@ func VerifHarness_C20_postcooldown() {
 func VerifHarness_C20_forever() {
 	N, K, F := verifShape(0), verifShape(1), verifShape(2)
 	w := newWorld(F)
+	w.J.TypedErrors = true // a failing cloud call may be a plain error, AWS throttling or an AWS ValidationError
 	o := groupOpts(0)
 	gm := graceMenus[1]
 	o.SoftDeleteGracePeriod, o.HardDeleteGracePeriod = gm.soft, gm.hard
@@ -436,5 +438,32 @@ func VerifHarness_C19_bigbatch() {
 	default:
 		verifAssert("C19.complete-batch", terms == N && deletes == N && err == nil)
 		verifReach("C19.big-batch-complete")
+	}
+}
+
+
+// VerifHarness_C20_untaint_odd: a scale-up that reuses a tainted node whose taint list is odd: the
+// escalator taint twice (different effects) in any arrangement with a foreign taint. The scan must
+// not panic, and what it does must still add up (C07: exactly the remainder is bought).
+// shape: [failure budget]
+func VerifHarness_C20_untaint_odd() {
+	F := verifShape(0)
+	w := newWorld(F)
+	o := groupOpts(0)
+	o.MinNodes, o.MaxNodes = 0, 6
+	g := w.addGroup(o, 0, 6, 0)
+	w.addNode(g, tcNone, false, 0, 0, 9000, true)
+	n := w.addNode(g, tcEscTwice, false, 0, 10, 5000, true)
+	e1, x, e2 := n.obj.Spec.Taints[0], n.obj.Spec.Taints[1], n.obj.Spec.Taints[2]
+	n.obj.Spec.Taints = [][]v1.Taint{{e1, x, e2}, {e1, e2}, {x, e1, e2}, {e1, e2, x}, {e2, x, e1}}[verifChoice("taintOrder", 5)]
+	w.symPods("", g, 1, 1, false, -3*w.cpuPerNode, false)
+	w.build()
+	mark := len(w.J.Calls)
+	err := w.ctrl.RunOnce()
+	verifAssert("C20.odd-taints-scan-completes", err == nil)
+	for _, e := range w.J.Calls[mark:] {
+		if (e.Kind == "NodeUntaint" || e.Kind == "NodeUpdate") && e.Node == n.name {
+			verifReach("C20.untaint-of-doubly-tainted-node") // (removing one of the two leaves the key on the node)
+		}
 	}
 }
